@@ -49,6 +49,10 @@ def run(ctx):
                    'ready would stall the exec)', floor=1)
     chk.rule('B6', 'no unbounded recursion: every call-graph cycle reachable from the interposers is a listed recursion '
                    'whose argument changes on every call, or is cut by a re-entrancy guard', floor=1)
+    chk.rule('B9', 'no heap block is released twice, returned or used after free(): glibc answers a double free with abort(), '
+                   'i.e. SIGABRT inside the caller\'s exec', floor=15)
+    chk.rule('B10', 'a read/write-class call in a loop is not repeated after it failed, errno-tested interruptions aside (a '
+                    'persistent failure would be retried for ever)', floor=1)
     chk.rule('B7', 'stack use does not depend on configuration or input: no alloca, no variable-length array sized by a '
                    'run-time value, fixed automatic arrays below 64 KiB per frame', floor=10)
     chk.explanation = (
@@ -231,6 +235,12 @@ def run(ctx):
     # ---- B6 ------------------------------------------------------------------------
     from rules.recursion import recursion_rule
     recursion_rule(ctx, prog, cg, reach, 'B6')
+    # ---- B9 ------------------------------------------------------------------------
+    common.release_rule(ctx, reach, 'B9', 'glibc detects the double free ("double free detected in tcache") and aborts: the '
+                        'process that called exec is killed by SIGABRT inside the wrapper')
+    # ---- B10 -----------------------------------------------------------------------
+    if common.failed_io_ends_loop_rule(ctx, reach, 'B10') == 0:
+        raise AnalysisBroken('no read/write-class call inside a loop found (the utmp reader has one)')
     # ---- B7 ------------------------------------------------------------------------
     stack_rule(ctx, prog, reach, 'B7')
 
